@@ -1,16 +1,25 @@
 """Vocabulary: the in-crate function names the rules speak in.
 
-A function whose name occurs in a string literal of the analyzer is kept as a *named call* in value terms (rules match
-on it); every other in-crate function - in particular a helper introduced by a refactoring - is replaced by its
-decision-tree summary, so that extracting or inlining private helpers does not change what the rules see."""
-import io, os, re, tokenize
+A function the rules name is kept as a *named call* in value terms (rules match on it); every other private in-crate function -
+in particular a helper introduced by a refactoring - is replaced by its decision-tree summary, so that extracting or inlining
+private helpers does not change what the rules see.
 
-_NAMES = None
+A function counts as named when a string literal of the analyzer contains a path ending in its last two path segments
+(`ElfStream::get_symbol_table_of_type`), or its full name, or when a literal is exactly its bare name (method names listed in
+tables from which full names are built)."""
+import ast, io, os, re, tokenize
+
+_PATHS = None
+_EXACT = None
+
+
+def _clean(s):
+    return re.sub(r"[<>{}#&' ]", "", s)
 
 
 def _load():
-    global _NAMES
-    names = set()
+    global _PATHS, _EXACT
+    paths, exact = set(), set()
     here = os.path.dirname(os.path.abspath(__file__))
     files = [os.path.join(here, f) for f in os.listdir(here) if f.endswith(".py")]
     files += [os.path.join(here, "rules", f) for f in os.listdir(os.path.join(here, "rules")) if f.endswith(".py")]
@@ -20,16 +29,40 @@ def _load():
         try:
             src = open(f, "rb").read()
             for tok in tokenize.tokenize(io.BytesIO(src).readline):
-                if tok.type == tokenize.STRING:
-                    for w in re.findall(r"[A-Za-z_][A-Za-z0-9_]*", tok.string):
-                        names.add(w)
+                if tok.type != tokenize.STRING:
+                    continue
+                try:
+                    val = ast.literal_eval(tok.string)
+                except (ValueError, SyntaxError):
+                    continue
+                if not isinstance(val, str):
+                    continue
+                if re.fullmatch(r"[A-Za-z_][A-Za-z0-9_]*", val):
+                    exact.add(val)
+                for w in re.findall(r"[A-Za-z_<][A-Za-z0-9_:<> ,'&]*::[A-Za-z_][A-Za-z0-9_]*", val):
+                    segs = [x for x in _clean(w).split("::") if x]
+                    # trait-qualified names: `<X as a::Trait>::m` cleans to `XasaTrait::m`; keep the trait's last segment too
+                    m = re.search(r"([A-Za-z_][A-Za-z0-9_]*)>::([A-Za-z_][A-Za-z0-9_]*)$", w)
+                    if m:
+                        paths.add(m.group(1) + "::" + m.group(2))
+                    if len(segs) >= 2:
+                        paths.add("::".join(segs[-2:]))
         except (tokenize.TokenError, SyntaxError):
             continue
-    _NAMES = names
+    _PATHS, _EXACT = paths, exact
 
 
 def is_known(qual):
-    if _NAMES is None:
+    if _PATHS is None:
         _load()
-    last = re.sub(r"[<>{}#]", "", qual.split("::")[-1])
-    return last in _NAMES
+    q = qual
+    last = q.split("::")[-1]
+    if "{closure" in q:
+        return False
+    m = re.search(r"([A-Za-z_][A-Za-z0-9_]*)>::([A-Za-z_][A-Za-z0-9_]*)$", q)
+    if m and (m.group(1) + "::" + m.group(2)) in _PATHS:
+        return True
+    segs = [x for x in _clean(q).split("::") if x]
+    if len(segs) >= 2 and "::".join(segs[-2:]) in _PATHS:
+        return True
+    return last in _EXACT
